@@ -350,3 +350,64 @@ func LongShuffle(t *rapid.T, p refchess.Pos, lo, hi int) ([]refchess.Move, refch
 	}
 	return ms, p
 }
+
+// Extreme draws a valid position with as much material as promotion allows on one side (up to nine
+// queens, ten rooks / bishops / knights) against a bare or nearly bare king: evaluations at and
+// beyond the edge of the score range, long sliding lines, many attackers per square.
+func Extreme(t *rapid.T) refchess.Pos {
+	for attempt := 0; attempt < 8; attempt++ {
+		var p refchess.Pos
+		p.EP = -1
+		side := int8(1)
+		if chance(t, 1, 2, "side") {
+			side = -1
+		}
+		wk := draw(t, 0, 63, "k1")
+		p.Sq[wk] = side * K
+		bk := draw(t, 0, 63, "k2")
+		for i := 0; i < 64; i++ {
+			s := (bk + i) % 64
+			if p.Sq[s] == 0 && !adjacent(s, wk) {
+				p.Sq[s] = -side * K
+				break
+			}
+		}
+		promoted := draw(t, 5, 8, "promoted")
+		kind := int8(Q)
+		if chance(t, 1, 3, "otherKind") {
+			kind = int8(draw(t, N, R, "kind"))
+		}
+		base := []int8{Q, R, R, B, B, N, N}
+		for _, k := range base {
+			if chance(t, 3, 4, "base") {
+				place(t, &p, side*k)
+			}
+		}
+		for i := 0; i < promoted; i++ {
+			k := kind
+			if chance(t, 1, 5, "mix") {
+				k = int8(draw(t, N, Q, "mixKind"))
+			}
+			place(t, &p, side*k)
+		}
+		for i := 0; i < 8-promoted; i++ {
+			if chance(t, 1, 2, "pawn") {
+				place(t, &p, side*P)
+			}
+		}
+		for i := draw(t, 0, 2, "defenders"); i > 0; i-- {
+			place(t, &p, -side*int8(draw(t, P, Q, "dk")))
+		}
+		trimMaterial(&p)
+		w, b := p.InCheck(true), p.InCheck(false)
+		if w && b {
+			continue
+		}
+		p.White = w || (!b && chance(t, 1, 2, "stm"))
+		p.Half, p.Full = draw(t, 0, 100, "half"), draw(t, 1, 200, "full")
+		if p.Valid() == nil {
+			return p
+		}
+	}
+	return refchess.MustFEN("7k/8/8/8/NBNK4/QQQR4/QQQR4/QQQB4 w - - 0 1")
+}
